@@ -300,12 +300,20 @@ def _payload_kind(pl):
     return None
 
 
-def origins(body, operand):
+def origins(body, operand, at_bb=None, uses=None):
     """Where a scalar value comes from, followed backwards over *all* definitions through plain copies,
     `&`-borrows, `Ok(..)`/`Some(..)`/`Continue(..)` wrappers, `?` (Try::branch) and `&`/`&&`.
     -> (locals holding the value itself, leaves) ; a leaf is (kind, bb, obj):
          ('const', bb, text) | ('call', bb, Call)  value returned (or wrapped in the Ok of the value returned) by a call
-         | ('place', bb, expression tree of a field / nested projection that is read) | ('param', 0, index) | ('other', bb, description)"""
+         | ('place', bb, expression tree of a field / nested projection that is read) | ('param', 0, index) | ('other', bb, description)
+    With at_bb (the block in which `operand` is read) the walk is flow-aware: a definition counts only if the read is reachable from it --
+    `snapshot = flag` inside a first loop does not see what a later loop assigns to `flag`.  `uses` (a dict) receives, per holder, the blocks
+    in which it is read on the way."""
+    _reach = {}
+    def reaches(bi, ub):
+        if ub is None or ub < 0 or bi == ub: return True
+        if bi not in _reach: _reach[bi] = body.reach(body.succ(bi))
+        return ub in _reach[bi]
     holders = set(); leaves = []; seen = set(); work = []
     def visit_op(o, mode, bb):
         if o['k'] == 'const':
@@ -315,16 +323,19 @@ def origins(body, operand):
         pk = _payload_kind(o['pl'])
         if pk is None: leaves.append(('place', bb, T.expr(body, o))); return            # a field of something: described by its expression
         if pk and mode: leaves.append(('other', bb, 'nested wrapper')); return
-        work.append((o['pl']['l'], pk or mode))
-    visit_op(operand, '', -1)
+        work.append((o['pl']['l'], pk or mode, bb if at_bb is not None else None))
+    visit_op(operand, '', at_bb if at_bb is not None else -1)
     while work:
-        l, mode = work.pop()
-        if (l, mode) in seen: continue
-        seen.add((l, mode))
-        if mode == '': holders.add(l)
+        l, mode, ub = work.pop()
+        if (l, mode, ub) in seen: continue
+        seen.add((l, mode, ub))
+        if mode == '':
+            holders.add(l)
+            if uses is not None: uses.setdefault(l, set()).add(ub)
         if 1 <= l <= body.argc:
             leaves.append(('param', 0, l)); continue
         for k, bi, d in body.defs_of(l):
+            if not reaches(bi, ub): continue
             if k == 'stmt':
                 if d['dst']['p']: leaves.append(('other', bi, 'partial write')); continue
                 rv = d['rv']; kk = rv['k']
@@ -424,7 +435,8 @@ def _mentions(v, atom):
 
 def _subst(v, old, new):
     if v == old: return new
-    if isinstance(v, tuple) and v and v[0] in ('not', 'disc', 'branch', 'then', 'd', 'ref', 'payload'):
+    if isinstance(v, tuple) and len(v) == 2 and v[0] == 'tup': return ('tup', tuple(_subst(x, old, new) for x in v[1]))
+    if isinstance(v, tuple) and v and v[0] in ('not', 'disc', 'branch', 'then', 'd', 'ref', 'payload', 'tup'):
         return _simplify(tuple(_subst(x, old, new) for x in v))
     return v
 
@@ -487,9 +499,19 @@ class PathEval:
             if v is None and site is not None and (self.b.locals[l] == 'bool' or site[2] == 'enum'):
                 v = self._fresh(env, ('sym', l, site[:2])); env[l] = v
             return v
-        if len(p) == 2 and isinstance(p[0], dict) and 'dc' in p[0] and isinstance(p[1], dict) and p[1].get('f') == '0':
-            if isinstance(v, tuple) and v[0] == 'd' and DC_IDX.get(p[0]['dc']) == v[1]: return v[2]
-        return None
+        # payloads `(x as Some).0` and tuple components `.i`, nested in any order
+        while p:
+            if len(p) >= 2 and isinstance(p[0], dict) and 'dc' in p[0] and isinstance(p[1], dict) and p[1].get('f') == '0':
+                if isinstance(v, tuple) and v[0] == 'd' and DC_IDX.get(p[0]['dc']) == v[1]: v = v[2]; p = p[2:]; continue
+                return None
+            if isinstance(p[0], dict) and p[0].get('of') == 'tuple' and p[0].get('f', '').isdigit():
+                if isinstance(v, tuple) and v[0] == 'tup' and int(p[0]['f']) < len(v[1]): v = v[1][int(p[0]['f'])]; p = p[1:]; continue
+                return None
+            if p[0] == '*':
+                if isinstance(v, tuple) and v[0] == 'ref': v = env.get(v[1]); p = p[1:]; continue
+                return None
+            return None
+        return v
 
     def read(self, env, o, site):
         if o['k'] == 'const':
@@ -528,6 +550,7 @@ class PathEval:
             for suf, idx in VARIANT_IDX.items():
                 if adt.endswith(suf):
                     v = ('d', idx, self.read(env, rv['ops'][0], site) if rv['ops'] else None); break
+            if adt == 'tuple' and rv['ops']: v = ('tup', tuple(self.read(env, o, site) for o in rv['ops']))
         elif k == 'discr':
             a = self.read_place(env, rv['pl'], (bi, si, 'enum'))
             v = _simplify(('disc', a)) if a is not None else None
@@ -564,7 +587,7 @@ class PathEval:
         elif re.search(r'Option::<.*>::(ok_or|ok_or_else)$', base) and isinstance(a0, tuple) and a0[0] == 'd':
             v = ('d', 0, a0[2]) if a0[1] == 1 else ('d', 1, None)                      # Some(x) -> Ok(x), None -> Err
         elif re.search(r'anyhow::Context<.*>::(context|with_context)$', base) and isinstance(a0, tuple) and a0[0] == 'd':
-            if nm.startswith('<std::option::Option<'): v = ('d', 0, a0[2]) if a0[1] == 1 else ('d', 1, None)
+            if nm.startswith('<std::option::Option<') or ' for std::option::Option<' in nm: v = ('d', 0, a0[2]) if a0[1] == 1 else ('d', 1, None)      # Context on an Option: Some(x) -> Ok(x), None -> Err
             else: v = ('d', a0[1], a0[2] if a0[1] == 0 else None)
         elif re.search(r'(Option|Result)::<.*>::(as_ref|as_mut|copied|cloned|map|map_err)$', base) and isinstance(a0, tuple) and a0[0] in ('d', 'ref'):
             x = env.get(a0[1]) if a0[0] == 'ref' else a0
@@ -983,7 +1006,7 @@ def renormalised(ctx, body):
     if raw is None or body.name not in raw.bodies: return body
     needs = False
     for c in body.calls:
-        if (c.trait or '') == 'std::iter::Iterator' and c.item in ('try_fold', 'fold', 'for_each', 'try_for_each', 'find', 'find_map', 'any', 'all', 'position', 'map', 'filter', 'filter_map'): needs = True
+        if (c.trait or '') == 'std::iter::Iterator' and c.item in ('try_fold', 'fold', 'for_each', 'try_for_each', 'find', 'find_map', 'any', 'all', 'position', 'map', 'filter', 'filter_map', 'chain'): needs = True
         if re.search(r'option::Option::<.*?>::(map|and_then|or_else|unwrap_or_else)::<|result::Result::<.*?>::(map|and_then)::<', c.name): needs = True
     # helpers that the normal form inlined may contain such calls as well: they are in `body` already (it is the inlined form)
     if not needs: return body
@@ -1002,20 +1025,181 @@ def renormalised(ctx, body):
                     return self._closure_of(rw, {'k': 'copy', 'pl': {'l': d[2]['rv']['pl']['l'], 'p': []}})       # `&mut f`, `&f`
                 return None
 
+            ADAPT = normalize.CLOSURE_ADAPTORS
+
             def _walk_chain(self, rw, local):
-                # the consumer takes `&mut chain` (try_fold, by_ref): look at the chain itself
-                for _ in range(4):
+                # look at the chain itself: the consumer may take it by `&mut` (try_fold, by_ref), it may have been bound to a name first
+                # (`let fixed = it.filter_map(..); for x in fixed`) and pass through `into_iter` (identity on an iterator)
+                for _ in range(8):
                     d = rw.single_def(local)
-                    if d is not None and d[0] == 'stmt' and d[2]['rv']['k'] == 'ref' and d[2]['rv']['pl']['p'] in ([], ['*']): local = d[2]['rv']['pl']['l']
-                    else: break
+                    if d is None: break
+                    if d[0] == 'stmt':
+                        rv = d[2]['rv']
+                        if rv['k'] == 'ref' and rv['pl']['p'] in ([], ['*']): local = rv['pl']['l']; continue
+                        if rv['k'] == 'use' and rv['ops'][0]['k'] in ('copy', 'move') and not rv['ops'][0]['pl']['p']: local = rv['ops'][0]['pl']['l']; continue
+                        break
+                    t = d[2]; ri = t.get('ri') or {}
+                    if (ri.get('trait') or '') == 'std::iter::IntoIterator' and ri.get('item') == 'into_iter' and t['args'] and t['args'][0]['k'] in ('copy', 'move') and not t['args'][0]['pl']['p']:
+                        a = t['args'][0]['pl']['l']; src = a
+                        for _ in range(6):
+                            d2 = rw.single_def(src)
+                            if d2 is not None and d2[0] == 'stmt' and d2[2]['rv']['k'] == 'use' and d2[2]['rv']['ops'][0]['k'] in ('copy', 'move') and not d2[2]['rv']['ops'][0]['pl']['p']:
+                                src = d2[2]['rv']['ops'][0]['pl']['l']
+                            else: break
+                        d2 = rw.single_def(src)
+                        if d2 is not None and d2[0] == 'call' and ((d2[2].get('ri') or {}).get('trait') or '') == 'std::iter::Iterator' and (d2[2]['ri'].get('item') in self.ADAPT):
+                            local = src; continue
+                    break
                 return normalize.Normalizer._walk_chain(self, rw, local)
+
+            # ---- `for x in a.chain(b) { body }`  ==  `for x in a { body }  for x in b { body }`   (loop fission over the sources of a chain)
+            def _chain_of(self, rw, local):
+                cur = local; first = None
+                for _ in range(10):
+                    d = rw.single_def(cur)
+                    if d is None: return None
+                    if d[0] == 'stmt':
+                        rv = d[2]['rv']
+                        if rv['k'] == 'ref' and rv['pl']['p'] in ([], ['*']):
+                            first = rv['pl']['l']                       # the iterator variable itself is the last thing a reference is taken of
+                            cur = rv['pl']['l']; continue
+                        if rv['k'] == 'use' and rv['ops'][0]['k'] in ('copy', 'move') and not rv['ops'][0]['pl']['p']: cur = rv['ops'][0]['pl']['l']; continue
+                        return None
+                    t = d[2]; ri = t.get('ri') or {}
+                    if (ri.get('trait') or '') == 'std::iter::IntoIterator' and ri.get('item') == 'into_iter' and t['args'] and t['args'][0]['k'] in ('copy', 'move') and not t['args'][0]['pl']['p']:
+                        cur = t['args'][0]['pl']['l']; continue
+                    if (ri.get('trait') or '') == 'std::iter::Iterator' and ri.get('item') == 'chain' and len(t['args']) == 2 and all(x['k'] in ('copy', 'move') and not x['pl']['p'] for x in t['args']) and t['t'] >= 0:
+                        return first, d[1], t
+                    return None
+                return None
+
+            def _fission_chain(self, rw):
+                from ..facts import Body
+                from ..normalize import _use, _mv
+                import copy as _copy
+                for hi, hb in enumerate(rw.blocks):
+                    t = hb['term']
+                    if hb['cleanup'] or t['k'] != 'call' or t.get('fissioned') or not normalize._is_iter_trait(t) or (t.get('ri') or {}).get('item') != 'next': continue
+                    if not t['args'] or t['args'][0]['k'] not in ('copy', 'move') or t['args'][0]['pl']['p'] or t['t'] < 0: continue
+                    found = self._chain_of(rw, t['args'][0]['pl']['l'])
+                    if found is None or found[0] is None: continue
+                    iter_local, cbi, ct = found
+                    swt = rw.blocks[t['t']]['term']
+                    if swt['k'] != 'switch': continue
+                    m = {v: tb for v, tb in swt['ts']}
+                    if 0 not in m or 1 not in m: continue
+                    bd = Body(_copy.deepcopy(rw.d))
+                    loops = bd.loops()
+                    hdr = [h for h, blocks in loops.items() if hi in blocks]
+                    if not hdr: continue
+                    hdr = min(hdr, key=lambda h: len(loops[h])); L = set(loops[hdr])
+                    if cbi in L or m[0] in L: continue
+                    # locals private to the loop body get a second incarnation in the copy (keeps them single-definition)
+                    def defs_in(bset):
+                        out = set()
+                        for bi in bset:
+                            for st in rw.blocks[bi]['st']:
+                                if 'dst' in st: out.add(st['dst']['l'])
+                            tt = rw.blocks[bi]['term']
+                            if tt['k'] == 'call': out.add(tt['dst']['l'])
+                        return out
+                    inside = defs_in(L); outside = defs_in(set(range(len(rw.blocks))) - L)
+                    private = {l for l in inside - outside if l > rw.d['argc']}
+                    lmap = {l: rw.new_local(rw.locals[l]) for l in sorted(private)}
+                    it2 = rw.new_local(rw.locals[iter_local]); lmap[iter_local] = it2
+                    bmap = {}
+                    for bi in sorted(L): bmap[bi] = rw.new_block()
+                    def mp(pl):
+                        q = {'l': lmap.get(pl['l'], pl['l']), 'p': []}
+                        for x in pl['p']:
+                            if isinstance(x, dict) and 'ix' in x: y = dict(x); y['ix'] = lmap.get(x['ix'], x['ix']); q['p'].append(y)
+                            else: q['p'].append(x)
+                        return q
+                    def mo(o):
+                        return {'k': o['k'], 'pl': mp(o['pl'])} if o['k'] in ('copy', 'move') else o
+                    exit_bb = m[0]
+                    for bi in sorted(L):
+                        src = rw.blocks[bi]; st2 = []
+                        for st in src['st']:
+                            s2 = _copy.deepcopy(st)
+                            if 'dst' in s2:
+                                s2['dst'] = mp(s2['dst']); rv = s2['rv']
+                                if 'ops' in rv: rv['ops'] = [mo(o) for o in rv['ops']]
+                                if 'pl' in rv: rv['pl'] = mp(rv['pl'])
+                            st2.append(s2)
+                        t2 = _copy.deepcopy(src['term']); k = t2['k']
+                        tg = lambda x: bmap.get(x, x)
+                        if k == 'call':
+                            t2['args'] = [mo(a) for a in t2['args']]; t2['dst'] = mp(t2['dst'])
+                            if t2['t'] >= 0: t2['t'] = tg(t2['t'])
+                            t2.pop('desugared', None)
+                        elif k == 'switch':
+                            t2['d'] = mo(t2['d']); t2['ts'] = [[v, tg(tb)] for v, tb in t2['ts']]; t2['else'] = tg(t2['else'])
+                        elif k in ('goto', 'drop', 'assert'):
+                            t2['t'] = tg(t2['t'])
+                            if 'pl' in t2: t2['pl'] = mp(t2['pl'])
+                            if 'cond' in t2 and isinstance(t2['cond'], dict): t2['cond'] = mo(t2['cond'])
+                        rw.blocks[bmap[bi]] = {'cleanup': src['cleanup'], 'st': st2, 'term': t2}
+                    rw.blocks[bmap[hi]]['term']['fissioned'] = True
+                    t['fissioned'] = True; t.pop('desugared', None)
+                    # first loop runs over the first source, then falls into the second loop, which exits where the fused loop did
+                    P = rw.new_block([_use(it2, _mv(ct['args'][1]['pl']['l']))], {'k': 'goto', 't': bmap[hdr]})
+                    swt['ts'] = [[v, (P if v == 0 else tb)] for v, tb in swt['ts']]
+                    rw.blocks[cbi]['st'].append(_use(ct['dst'], _mv(ct['args'][0]['pl']['l'])))
+                    rw.goto(cbi, ct['t'])
+                    rw.changed = True
+                    return True
+                return False
+
+            def _fold_const_switches(self, rw):
+                """a switch on a bool that is a constant on this copy of the code (the per-source tag of a fissioned chain) takes one side"""
+                def resolve(o, depth=0):
+                    if depth > 10: return None
+                    if o['k'] == 'const':
+                        v = o['v'].replace('const ', '').strip()
+                        return True if v == 'true' else False if v == 'false' else None
+                    if o['k'] not in ('copy', 'move'): return None
+                    d = rw.single_def(o['pl']['l'])
+                    if d is None or d[0] != 'stmt': return None
+                    rv = d[2]['rv']; p = [x for x in o['pl']['p'] if x != '*']
+                    if rv['k'] == 'use': 
+                        src = rv['ops'][0]
+                        if src['k'] == 'const': return resolve(src, depth + 1) if not p else None
+                        if src['k'] in ('copy', 'move'): return resolve({'k': 'copy', 'pl': {'l': src['pl']['l'], 'p': list(src['pl']['p']) + p}}, depth + 1)
+                        return None
+                    if rv['k'] == 'ref' and not p: return resolve({'k': 'copy', 'pl': rv['pl']}, depth + 1)
+                    if rv['k'] == 'un' and rv['op'] == 'Not' and not p:
+                        x = resolve(rv['ops'][0], depth + 1)
+                        return None if x is None else (not x)
+                    if rv['k'] == 'agg' and rv['adt'] == 'tuple' and len(p) == 1 and isinstance(p[0], dict) and p[0].get('f', '').isdigit() and int(p[0]['f']) < len(rv['ops']):
+                        return resolve(rv['ops'][int(p[0]['f'])], depth + 1)
+                    return None
+                n = 0
+                for b in rw.blocks:
+                    t = b['term']
+                    if b['cleanup'] or t['k'] != 'switch' or t['d']['k'] == 'const': continue
+                    if rw.locals[t['d']['pl']['l']] != 'bool': continue
+                    v = resolve(t['d'])
+                    if v is None: continue
+                    m = {val: tb for val, tb in t['ts']}
+                    b['term'] = {'k': 'goto', 't': m.get(1 if v else 0, t['else'])}; n += 1
+                if n: rw.changed = True
+                return n
 
             def _normalize(self, d):
                 d2 = normalize.Normalizer._normalize(self, d)
                 if d2.get('kind') == 'promoted': return d2
                 rw = normalize.Rewriter(d2); rw.promoted_of = self._promoted_of
+                fissioned = False
+                for _ in range(6):
+                    if not self._fission_chain(rw): break
+                    fissioned = True
+                if fissioned:
+                    for _ in range(40):
+                        if not self._desugar_one(rw): break
                 for _ in range(30):
                     if not self._desugar_option(rw): break
+                if fissioned: self._fold_const_switches(rw)
                 return rw.d if rw.changed else d2
 
             def _desugar_option(self, rw):
